@@ -8,6 +8,7 @@ import (
 	"fmt"
 	"io"
 	"reflect"
+	"strings"
 
 	"github.com/fxamacker/cbor/v2"
 	"go.flow.arcalot.io/pluginsdk/atp"
@@ -238,6 +239,23 @@ func mustEnc(v any) []byte {
 // 2/4/8-byte lengths: a reader that starts in the middle of it waits for gigabytes.
 const ErrText = "zzzz{{{{zzzzyyyyzzzz{{{{zzzzzzzzzzzzzzzz{{{{zzzz"
 
+// LongErrTexts are error texts of 1100-3000 bytes: multi-byte characters (far fewer characters than
+// bytes), and ASCII control characters of the same byte lengths.
+var LongErrTexts = map[string]string{
+	"ja":   strings.Repeat("エラー: ステップが失敗しました。スタックトレース→", 22),                  // ~1600 bytes, ~600 characters
+	"ru":   strings.Repeat("ошибка выполнения шага: трассировка стека; ", 36), // ~2900 bytes
+	"mix":  strings.Repeat("a", 700) + strings.Repeat("語", 140),               // 1120 bytes, 840 characters
+	"ctl":  strings.Repeat("\x01\x02\x1b[0m\t", 160),                          // 1120 bytes of controls
+	"ctl3": strings.Repeat("\x7f\x00\x1f", 1000),                              // 3000 bytes
+}
+
+func errText(o SOp) string {
+	if t, ok := LongErrTexts[o.Logs]; ok {
+		return t
+	}
+	return ErrText
+}
+
 // MsgBytes is the wire form of one scripted server message.
 func MsgBytes(o SOp, ver int64, badSchema bool) []byte {
 	switch o.Op {
@@ -254,7 +272,7 @@ func MsgBytes(o SOp, ver int64, badSchema bool) []byte {
 			MessageData: atp.SignalMessage{SignalID: "sg", Data: "d"}})
 	case "err":
 		return mustEnc(atp.RuntimeMessage{MessageID: atp.MessageTypeError, RunID: o.R,
-			MessageData: atp.ErrorMessage{Error: ErrText, StepFatal: o.SF, ServerFatal: o.VF}})
+			MessageData: atp.ErrorMessage{Error: errText(o), StepFatal: o.SF, ServerFatal: o.VF}})
 	case "unk":
 		return mustEnc(atp.RuntimeMessage{MessageID: 9, RunID: o.R, MessageData: nil})
 	// frames whose payload belongs to another message type (what a flipped message ID produces)
